@@ -155,9 +155,12 @@ def jobs(tier):
     if not q: cfgs += [(1, 1, 'scalar', 'scalar', 'cov', 'cov', 'default'), (2, 2, 'dense', 'dense', 'cov', 'cov', 'default'), (2, 2, 'dense', 'vector', 'cov', 'cov', 'default'), (2, 2, 'vector', 'dense', 'cov', 'cov', 'default')]
     for (m, n, nf, pf, npar, ppar, geom) in cfgs:
         J.append(Job(f'MAP:closed_form:m={m}:n={n}:noise={npar}/{nf}:prior={ppar}/{pf}:geometry={geom}',
-                     lambda c, a=(m, n, nf, pf, npar, ppar, geom): map_closed_form(c, *a), 'Pbox', FL, allow_exc=True, rtol=1e-4, timeout=600))
-    for (m, n, nf, pf) in [(2, 2, 'scalar', 'scalar'), (2, 2, 'vector', 'vector'), (1, 2, 'scalar', 'vector')] + ([] if q else [(2, 2, 'dense', 'dense')]):
-        J.append(Job(f'sample_posterior:direct:m={m}:n={n}:noise={nf}:prior={pf}', lambda c, a=(m, n, nf, pf): direct_sampling(c, *a), 'Pbox',
+                     lambda c, a=(m, n, nf, pf, npar, ppar, geom): map_closed_form(c, *a),
+                     # both covariances dense: the stationarity identity (14 symbols, three nested square roots) exceeds the normaliser's
+                     # monomial budget and the SMT solvers' time: bounded stand-in, not counted as proved
+                     'B' if (nf, pf) == ('dense', 'dense') else 'Pbox', FL, allow_exc=True, rtol=1e-4, timeout=600))
+    for (m, n, nf, pf) in [(2, 2, 'scalar', 'scalar'), (2, 2, 'vector', 'vector'), (1, 2, 'scalar', 'vector')] + ([] if q else [(2, 2, 'dense', 'vector'), (2, 2, 'dense', 'dense')]):
+        J.append(Job(f'sample_posterior:direct:m={m}:n={n}:noise={nf}:prior={pf}', lambda c, a=(m, n, nf, pf): direct_sampling(c, *a), 'B' if 'dense' in (nf, pf) else 'Pbox',   # B B^T H = I with a dense covariance exceeds the provers' budget: bounded stand-in
                      [f'{PR}:BayesianProblem._sampleMapCholesky'] + FL, rtol=1e-4, timeout=600, allow_exc=True))
     J.append(Job('MAP:closed_form:after_compute_cov:sqrtprec_triangular_and_vector_prec', map_after_compute_cov, 'Pbox', FL + ['cuqi.distribution._gaussian:Gaussian.compute_cov'], allow_exc=True, rtol=1e-4, timeout=600))
     for which in ('MAP', 'ML'):
